@@ -566,3 +566,21 @@ def coll_arg(names, style, name_style=None):
         return dict.fromkeys(items).keys()
     return items
 
+
+# ------------------------------------------------------- images on disk
+
+def image_on_disk(data, tag='img'):
+    """Write `data` to a scratch file and return its path.  Path-taking entry
+    points (detect_file_format, from_file, the CLI) are handed a path that
+    really holds the content: the `format_inspector.open` seam then adds
+    short reads and read errors when the tree under test opens files through
+    it, and a tree that opens them some other way (os.open, io.FileIO,
+    pathlib) simply reads the file - the fault plan is then not in effect,
+    which the caller can tell from the seam not having been used."""
+    import os as _os
+    path = _os.path.join(core.scratch_dir('images'),
+                         '%s-%d' % (tag, _os.getpid()))
+    with open(path, 'wb') as fh:
+        fh.write(data)
+    return path
+
